@@ -10,6 +10,10 @@ fn main() {
     if args.len() < 3 {
         usage();
     }
+    if args[1] == "c07-worker" {
+        let tier = if args[2] == "thorough" { Tier::Thorough } else { Tier::Quick };
+        std::process::exit(verif_mc::props::c07::worker(tier));
+    }
     if args[1] == "replay" {
         let text = std::fs::read_to_string(&args[2]).expect("read replay file");
         let doc: serde_json::Value = serde_json::from_str(&text).expect("parse replay file");
